@@ -368,8 +368,10 @@ def oracle_C10(hi, ops, obs):
         # the previous block carries the commission rates and the minimum self-delegation of that application
         if 'vcom' in b:
             was = dict((int(p[0]), p) for p in (prev.get('pend') or []))
+            # (its operator may edit the fresh validator in the very block of the admission: MsgEditValidator is not disabled)
+            edited = set(sg for (_, sg, m) in successful_leaves(ob, b) if m.kind == 'EDIT')
             for op, vc in b['vcom'].items():
-                if op in was and op not in (prev.get('vals') or {}):
+                if op in was and op not in (prev.get('vals') or {}) and op not in edited:
                     sub = was[op][4].split(',')[5:8]
                     if vc[:3] != sub or vc[3] != '1':
                         out.append(Viol(hi, b['h'], 'admitted-differs-from-application', f"op {op}: application rates {sub} min-self 1, validator {vc}"))
@@ -421,6 +423,26 @@ def oracle_C13(hi, ops, obs):
             if v['jailed'] and v['key'] in b['comet']:
                 out.append(Viol(hi, b['h'], 'jailed-in-set', f"op {v['op']} jailed but key {v['key']} has power {b['comet'][v['key']]}"))
         leaves = successful_leaves(ob, b)
+        # downtime: x/slashing jails a validator only when it missed more blocks of the current window than the rule
+        # tolerates — whatever the admin did to it meanwhile.  (Necessary condition, counted from the votes of the last
+        # `window` blocks; a jailing in a block that carries evidence against the key is the double-sign path.)
+        if prev['vals'] and len(ops['genesis']) > 3:
+            W, min_signed = ops['genesis'][2], ops['genesis'][3]
+            need = W - min_signed + 1
+            evid_keys = {e[0] for e in ob['evid']}
+            for k in _jailed_now(prev, b):
+                if k in evid_keys: continue
+                # the window slides over the validator's own last `window` vote records (it stands still while the validator is
+                # outside the set)
+                missed = 0; seen = 0
+                for jj in range(j, 0, -1):
+                    for (vk, _, absent) in ops['blocks'][jj-1]['votes']:
+                        if vk == k:
+                            seen += 1
+                            if absent: missed += 1
+                    if seen >= W: break
+                if missed < need:
+                    out.append(Viol(hi, b['h'], 'jailed-without-enough-misses', f"key {k} jailed after missing {missed} of the last {W} blocks; the rule tolerates {need - 1}"))
         # "stays out until it is unjailed": the jailed flag of a record is cleared by a successful MsgUnjail of its operator only
         if prev['vals']:
             unjailed_by_msg = set(int(m.args[0]) for (_, _, m) in leaves if m.kind == 'UNJAIL')
